@@ -29,6 +29,8 @@ func init() { color.NoColor = true }
 type Env struct {
 	Scratch  string // directory for jails
 	Chrooted bool   // the process lives in a chroot whose root is Scratch's root ("/")
+	Guard    bool   // run every case under a watchdog (in-process use; a worker process has its own)
+	poisoned atomic.Bool
 	seq      int
 }
 
@@ -97,7 +99,29 @@ var hookMu sync.Mutex
 
 // Run executes the case. It never panics; process-level failures are recorded in the Result.
 func (env *Env) Run(c *Case) *Result {
-	res := env.run(c)
+	var res *Result
+	switch {
+	case !env.Guard:
+		res = env.run(c)
+	case env.poisoned.Load():
+		res = &Result{Infra: "the in-process executor is unusable after an earlier call that did not return"}
+	default:
+		// in-process execution with a watchdog: a call that does not return is reported (its goroutine cannot be stopped,
+		// so the executor refuses further work afterwards: the first such case is the finding)
+		done := make(chan *Result, 1)
+		go func() { done <- env.run(c) }()
+		select {
+		case res = <-done:
+		case <-time.After(HangDeadline):
+			a := strings.Join(gtreeGoroutines(), "\n\n")
+			select {
+			case res = <-done:
+			case <-time.After(BusyDeadline):
+				env.poisoned.Store(true)
+				res = &Result{Hang: "call did not return within " + (HangDeadline + BusyDeadline).String() + "; gtree goroutines " + HangDeadline.String() + " into the call:\n" + a}
+			}
+		}
+	}
 	if res.Infra != "" {
 		InfraCount.Add(1)
 		LastInfra.Store(res.Infra)
@@ -325,6 +349,28 @@ func (env *Env) run(c *Case) *Result {
 	case 2:
 		rdCloser = &faultReaderCloser{faultReader: rd}
 		rdI = rdCloser
+	case 8, 9:
+		// a seekable reader that is NOT at its start when handed over: the caller has consumed an earlier section (which
+		// holds a hostile tree); the document is what remains. 8: *bytes.Reader, 9: regular file
+		prefix := []byte("- ..\n  - ..\n    - skipped-section\n- /skipped\n  - a/b\n")
+		all := append(append([]byte{}, prefix...), c.Doc...)
+		if c.Faults.IOKind == 8 {
+			br := bytes.NewReader(all)
+			br.Seek(int64(len(prefix)), io.SeekStart)
+			rdI = br
+		} else {
+			name := []byte("doc\x00")
+			fd, _, errno := syscall.Syscall(319 /* SYS_MEMFD_CREATE on amd64 */, uintptr(unsafe.Pointer(&name[0])), 0, 0)
+			if errno != 0 {
+				res.Infra = "memfd_create: " + errno.Error()
+				return res
+			}
+			f := os.NewFile(fd, "doc")
+			f.Write(all)
+			f.Seek(int64(len(prefix)), io.SeekStart)
+			defer f.Close()
+			rdI = f
+		}
 	case 6:
 		// an EMPTY regular file opened write-only: every Read fails with EBADF although nothing remains to be read
 		if f, err := os.CreateTemp(env.Scratch, "wronly"); err == nil {
@@ -368,9 +414,13 @@ func (env *Env) run(c *Case) *Result {
 				if c.UseSub > 0 && c.UseSub < len(nodes) {
 					node = nodes[c.UseSub]
 				}
+				if c.ColorPre {
+					color.NoColor = false // the earlier operations run as on a colour terminal
+				}
 				for _, po := range c.PreOps {
 					runPreOp(po, nodes[0], base, env.Scratch)
 				}
+				color.NoColor = true
 				for _, s := range c.MidProg {
 					p := s.P
 					if p < 0 || p >= len(nodes) {
